@@ -51,7 +51,10 @@ Definition obs_field (c : jclass) (fg : bool) (kw : obj) (textx : str) (ukw : ob
            match update VA c x ukw with
            | Ok _ => let x' := orig_after_result_lists_grow x ukw (JStr (S"ZZ")) in JArr [JObj x'; JStr (to_json c x')]
            | Err _ => JNull
-           end ]
+           end;
+           (* decode(T) depends only on T: the same text decoded a second time, after every list of the first result
+              was grown in place *)
+           jres (jopt JObj) dec ]
   end.
 
 Definition check_field (c : fcase) : bool :=
